@@ -317,7 +317,7 @@ static std::string structure_error(const Raw& r, int node)
 }
 
 // ------------------------------------------------------------------------------------------------ operations
-enum OpK { O_CONV = 1, O_CLONE, O_TRANS, O_PERM, O_LAYOUT, O_GRAPH, O_MIRROR };
+enum OpK { O_CONV = 1, O_CLONE, O_TRANS, O_PERM, O_LAYOUT, O_GRAPH, O_MIRROR, O_SHRINK /* relatives phase only */ };
 struct Op { int k = 0, a = 0, b = 0; };
 static const char* clone_name[5] = {"Shallow", "Layout", "Weak", "Deep", "Allocate"};
 
@@ -363,6 +363,7 @@ static std::string op_name_build(const Op& o, int src)
   case O_LAYOUT: s << (o.a == 0 ? "ctor(layout) " : "operator=(layout) ") << node_name[src]; break;
   case O_GRAPH: s << "ctor(Graph(as_is)) " << node_name[src]; break;
   case O_MIRROR: s << "CSCR(csr,mirror of non-empty rows) " << node_name[src]; break;
+  case O_SHRINK: s << "shrink(1) " << node_name[src]; break;
   }
   return s.str();
 }
@@ -377,7 +378,7 @@ static std::string op_full(const Op& o, const Model& M)
   return s;
 }
 static bool is_leaf(const Op& o) { return (o.k == O_CLONE && (o.a == int(CloneMode::Layout) || o.a == int(CloneMode::Allocate))) || o.k == O_LAYOUT || o.k == O_GRAPH; }
-static bool is_mutating(const Op& o) { return o.k == O_PERM || (o.k == O_TRANS && o.a == 2); }
+static bool is_mutating(const Op& o) { return o.k == O_PERM || o.k == O_SHRINK || (o.k == O_TRANS && o.a == 2); }
 
 /// expected sharing between result and source: bit0 data arrays shared, bit1 index arrays shared
 static int expected_sharing(const Op& o, int src)
@@ -450,6 +451,9 @@ static void model_step(Model& M, const Op& o)
     M.node = o.a;
     break;
   case O_MIRROR: M.node = mirror_target(M.node); break;
+  case O_SHRINK: // drop every stored entry with |value| < 1
+    for(size_t k = 0; k < M.S.size(); ++k) if(M.S[k] && std::fabs(M.D[k]) < 1.0) { M.S[k] = 0; M.D[k] = 0.0; }
+    break;
   case O_CLONE: case O_LAYOUT: break;
   case O_GRAPH: for(auto& v : M.D) v = 0.0; break;
   case O_TRANS:
@@ -484,7 +488,13 @@ template<typename MT_> void do_permute(MT_& mat, const std::vector<Index>& P, co
 
 /// Executes the real operation. Non-mutating ops return a new object and leave X alone; mutating ops
 /// change *X and return it.
-static ObjP apply_op(const Op& o, ObjP& X, const Model& M)
+template<int NT_> std::unique_ptr<ObjT<NT_>> take_target(ObjP* target)
+{
+  if(target && *target && (*target)->node == NT_) return std::unique_ptr<ObjT<NT_>>(static_cast<ObjT<NT_>*>(target->release()));
+  return std::make_unique<ObjT<NT_>>();
+}
+/// target: optional pre-existing container the operation writes into (t.op(x) form); consumed if its node fits
+static ObjP apply_op(const Op& o, ObjP& X, const Model& M, ObjP* target = nullptr)
 {
   ObjP Y;
   visit(*X, [&](auto& x, auto NS)
@@ -497,12 +507,12 @@ static ObjP apply_op(const Op& o, ObjP& X, const Model& M)
       for_each_node([&](auto NT)
       {
         constexpr int nt = decltype(NT)::value;
-        if constexpr(conv_ok(ns, nt)) { if(o.a == nt) { auto y = std::make_unique<ObjT<nt>>(); y->mat.convert(x.mat); Y = std::move(y); } }
+        if constexpr(conv_ok(ns, nt)) { if(o.a == nt) { auto y = take_target<nt>(target); y->mat.convert(x.mat); Y = std::move(y); } }
       });
       break;
     case O_CLONE:
     {
-      auto y = std::make_unique<ObjT<ns>>();
+      auto y = take_target<ns>(target);
       y->mat.clone(x.mat, CloneMode(o.a));
       Y = std::move(y);
       break;
@@ -514,18 +524,21 @@ static ObjP apply_op(const Op& o, ObjP& X, const Model& M)
         if constexpr(NodeT<ns>::fmt == F_DENSE)
         {
           if(o.a == 2) { x.mat.transpose_inplace(); Y = std::move(X); break; }
-          auto y = std::make_unique<ObjT<nt>>();
-          if(o.a == 1) y->mat = MS(x.mat.columns(), x.mat.rows(), typename MS::DataType(0));
+          auto y = take_target<nt>(target);
+          if(o.a == 1 && !target) y->mat = MS(x.mat.columns(), x.mat.rows(), typename MS::DataType(0));
           y->mat.transpose(x.mat);
           Y = std::move(y);
         }
         else
         {
-          auto y = std::make_unique<ObjT<nt>>();
+          auto y = take_target<nt>(target);
           y->mat.transpose(x.mat);
           Y = std::move(y);
         }
       }
+      break;
+    case O_SHRINK:
+      if constexpr(NodeT<ns>::fmt == F_CSR) { x.mat.shrink(typename MS::DataType(1)); Y = std::move(X); }
       break;
     case O_PERM:
       if constexpr(has_permute(ns))
@@ -537,9 +550,9 @@ static ObjP apply_op(const Op& o, ObjP& X, const Model& M)
     case O_LAYOUT:
       if constexpr(has_layout(ns))
       {
-        auto y = std::make_unique<ObjT<ns>>();
+        auto y = take_target<ns>(target);
         if(o.a == 0) y->mat = MS(x.mat.layout());
-        else { y->mat.clone(x.mat, CloneMode::Deep); y->mat = x.mat.layout(); }
+        else { if(!target) y->mat.clone(x.mat, CloneMode::Deep); y->mat = x.mat.layout(); }
         Y = std::move(y);
       }
       break;
@@ -547,7 +560,7 @@ static ObjP apply_op(const Op& o, ObjP& X, const Model& M)
       if constexpr(has_graph(ns))
       {
         Adjacency::Graph g(Adjacency::RenderType::as_is, x.mat);
-        auto y = std::make_unique<ObjT<ns>>();
+        auto y = take_target<ns>(target);
         y->mat = MS(g);
         Y = std::move(y);
       }
@@ -561,7 +574,7 @@ static ObjP apply_op(const Op& o, ObjP& X, const Model& M)
         for(Index i = 0; i < M.m; ++i) if(!M.row_empty(i)) rows.push_back(i);
         VectorMirror<DT, IT> mir(M.m, Index(rows.size()));
         for(size_t k = 0; k < rows.size(); ++k) mir.indices()[k] = IT(rows[k]);
-        auto y = std::make_unique<ObjT<nt>>();
+        auto y = take_target<nt>(target);
         y->mat = typename NodeT<nt>::type(x.mat, mir);
         Y = std::move(y);
       }
@@ -569,6 +582,73 @@ static ObjP apply_op(const Op& o, ObjP& X, const Model& M)
     }
   });
   return Y;
+}
+
+// ------------------------------------------------------------------------------------------------ harness-built containers
+template<typename DT_, typename IT_> void fill_dv(DenseVector<DT_, IT_>& v, const std::vector<double>& s) { for(size_t i = 0; i < s.size(); ++i) v.elements()[i] = DT_(s[i]); }
+template<typename IT_> void fill_iv(DenseVector<IT_, IT_>& v, const std::vector<u64>& s) { for(size_t i = 0; i < s.size(); ++i) v.elements()[i] = IT_(s[i]); }
+
+/// builds a container of node M.node holding exactly the matrix of the model, from harness-owned arrays (nnz > 0)
+static ObjP build_object(const Model& M)
+{
+  const Lay L = expected(M);
+  ObjP R;
+  for_each_node([&](auto NT)
+  {
+    constexpr int nt = decltype(NT)::value;
+    if(M.node != nt) return;
+    typedef typename NodeT<nt>::type MT; typedef typename MT::DataType DT; typedef typename MT::IndexType IT;
+    constexpr int f = NodeT<nt>::fmt;
+    auto y = std::make_unique<ObjT<nt>>();
+    if constexpr(f == F_DENSE)
+    {
+      y->mat = MT(M.m, M.n);
+      for(Index k = 0; k < M.m * M.n; ++k) y->mat.elements()[k] = DT(M.D[k]);
+    }
+    else
+    {
+      DenseVector<DT, IT> v(Index(L.el[0].size())); fill_dv(v, L.el[0]);
+      DenseVector<IT, IT> i0(Index(L.ix[0].size())); fill_iv(i0, L.ix[0]);
+      if constexpr(f == F_BAND) y->mat = MT(M.m, M.n, v, i0);
+      else
+      {
+        DenseVector<IT, IT> i1(Index(L.ix[1].size())); fill_iv(i1, L.ix[1]);
+        if constexpr(f == F_CSR) y->mat = MT(M.m, M.n, i0, v, i1);
+        else if constexpr(f == F_BCSR) y->mat = MT(M.m / Index(NodeT<nt>::bh), M.n / Index(NodeT<nt>::bw), i0, v, i1);
+        else { DenseVector<IT, IT> i2(Index(L.ix[2].size())); fill_iv(i2, L.ix[2]); y->mat = MT(M.m, M.n, i0, v, i1, i2); }
+      }
+    }
+    R = std::move(y);
+  });
+  return R;
+}
+enum RelKind { R_WEAK = 0, R_LAYOUT, R_CTOR_LAYOUT, R_SHALLOW };
+static const char* rel_name[4] = {"Weak clone", "Layout clone", "matrix built from layout()", "Shallow clone"};
+/// a relative of s: clone(Weak) / clone(Layout) / MT(s.layout()) / clone(Shallow); nullptr if not offered
+static ObjP make_relative(Obj& s, int rk)
+{
+  ObjP R;
+  visit(s, [&](auto& x, auto NS)
+  {
+    constexpr int ns = decltype(NS)::value;
+    typedef typename NodeT<ns>::type MS;
+    auto y = std::make_unique<ObjT<ns>>();
+    if(rk == R_WEAK) y->mat.clone(x.mat, CloneMode::Weak);
+    else if(rk == R_LAYOUT) y->mat.clone(x.mat, CloneMode::Layout);
+    else if(rk == R_SHALLOW) y->mat.clone(x.mat, CloneMode::Shallow);
+    else { if constexpr(has_layout(ns)) y->mat = MS(x.mat.layout()); else return; }
+    R = std::move(y);
+  });
+  return R;
+}
+/// writes values through the raw data pointers: element k of array a gets f(k) (positions keep the layout of the container)
+template<typename F> void write_values(Obj& Y, F&& f)
+{
+  visit(Y, [&](auto& y, auto)
+  {
+    auto& e = y.mat._elements; auto& es = y.mat._elements_size;
+    for(size_t a = 0; a < e.size(); ++a) for(Index i = 0; i < es[a]; ++i) e[a][i] = typename std::remove_reference<decltype(e[a][i])>::type(f(i));
+  });
 }
 
 // ------------------------------------------------------------------------------------------------ start states
@@ -588,9 +668,6 @@ static Model start_model(const Start& s)
   }
   return M;
 }
-
-template<typename DT_, typename IT_> void fill_dv(DenseVector<DT_, IT_>& v, const std::vector<double>& s) { for(size_t i = 0; i < s.size(); ++i) v.elements()[i] = DT_(s[i]); }
-template<typename IT_> void fill_iv(DenseVector<IT_, IT_>& v, const std::vector<u64>& s) { for(size_t i = 0; i < s.size(); ++i) v.elements()[i] = IT_(s[i]); }
 
 /// builds the start container from harness-owned arrays (constructor taking the three arrays)
 static ObjP start_object(const Start& s, const Model& M)
@@ -803,6 +880,146 @@ struct Search
     return ok;
   }
 
+  // ---------------------------------------------------------------------------------------------- relatives / target reuse
+  static std::string okey(Obj& o) { return key_of(actual(raw_of(o), o.node), o.node); }
+
+  /// a matrix of the shape of R (and, except for Banded, its nnz) for the target to be a relative of:
+  /// kind 0 = same pattern, 1 = columns reversed (block-wise); other values
+  static Model other_matrix(const Model& R, int kind)
+  {
+    Model T = R;
+    const Index bw = Index(R.bw()), BN = R.n / bw;
+    for(Index i = 0; i < R.m; ++i) for(Index j = 0; j < R.n; ++j)
+    {
+      const Index sj = (kind == 1) ? (BN - 1 - j / bw) * bw + j % bw : j;
+      T.S[i * R.n + j] = R.S[i * R.n + sj];
+      T.D[i * R.n + j] = R.S[i * R.n + sj] ? -(pos_value(i, j) + 16.0) : 0.0;
+    }
+    if(R.fmt() == F_BAND)
+    {
+      std::set<long> d;
+      for(Index i = 0; i < T.m; ++i) for(Index j = 0; j < T.n; ++j) if(T.S[i * T.n + j]) d.insert(long(j) - long(i));
+      for(Index i = 0; i < T.m; ++i) for(Index j = 0; j < T.n; ++j) if(d.count(long(j) - long(i))) T.S[i * T.n + j] = 1;
+    }
+    return T;
+  }
+
+  void relatives_phase(const std::vector<Op>& hist, const Model& M, const std::string& kx)
+  {
+    if(M.nnz() == 0) { c.count("relatives_phase_skipped_entry_free"); return; }
+    const int ns = M.node;
+    lazy_hist = &hist; lazy_op = nullptr; lazy_model = nullptr;
+    // ---- in-place structural operations, in both directions
+    std::vector<Op> inplace;
+    if(has_permute(ns))
+    {
+      const int np = int(perms(M.m / Index(M.bh())).size()), nq = int(perms(M.n / Index(M.bw())).size());
+      const int cand[3][2] = {{np - 1, nq - 1}, {1 % np, 0}, {0, 1 % nq}};
+      for(auto& pq : cand)
+      {
+        bool dup = (pq[0] == 0 && pq[1] == 0);
+        for(auto& o : inplace) if(o.k == O_PERM && o.a == pq[0] && o.b == pq[1]) dup = true;
+        if(!dup) inplace.push_back(Op{O_PERM, pq[0], pq[1]});
+      }
+    }
+    if(node_fmt[ns] == F_DENSE) inplace.push_back(Op{O_TRANS, 2, 0});
+    if(node_fmt[ns] == F_CSR) inplace.push_back(Op{O_SHRINK, 0, 0});
+    for(const Op& o : inplace)
+    {
+      Model M2 = M; model_step(M2, o);
+      const std::string& opn = op_name(o, ns);
+      {
+        // the operation is applied to the matrix while relatives of it are alive
+        Model Mt; ObjP X = replay(hist, Mt);
+        ObjP B[4]; std::string kb[4];
+        for(int rk = 0; rk < 4; ++rk)
+        {
+          B[rk] = make_relative(*X, rk);
+          if(!B[rk]) continue;
+          if(rk == R_LAYOUT || rk == R_CTOR_LAYOUT) write_values(*B[rk], [](Index i) { return 100.0 + double(i); });
+          kb[rk] = okey(*B[rk]);
+        }
+        ObjP Y = apply_op(o, X, M);
+        c.count("transitions"); c.count("relative_scenarios");
+        if(!Y) continue;
+        const Raw ry = raw_of(*Y);
+        check_state(*Y, ry, M2, opn + " [relatives of the matrix alive]", M, true);
+        for(int rk = 0; rk < 3; ++rk) if(B[rk])
+        {
+          c.count("bystanders_checked");
+          if(okey(*B[rk]) != kb[rk]) fail_once(opn + " in place: changes a " + rel_name[rk] + " of the matrix it is applied to", "bystander now " + lay_str(actual(raw_of(*B[rk]), ns)));
+        }
+        if(B[R_SHALLOW])
+        {
+          c.count("bystanders_checked");
+          const Raw rs = raw_of(*B[R_SHALLOW]);
+          const bool unchanged = okey(*B[R_SHALLOW]) == kb[R_SHALLOW];
+          bool aliased = rs.ep == ry.ep && rs.ip == ry.ip;
+          if(!unchanged && !aliased) fail_once(opn + " in place: Shallow clone is neither unchanged nor an alias of the result", "");
+          if(structure_error(rs, ns) != "" ) fail_once(opn + " in place: Shallow clone left with a structurally invalid layout", structure_error(rs, ns));
+        }
+      }
+      for(int rk = 0; rk < 3; ++rk)
+      {
+        // the operation is applied to a relative, the matrix watches
+        Model Mt; ObjP X = replay(hist, Mt);
+        ObjP T = make_relative(*X, rk);
+        if(!T) continue;
+        if(rk != R_WEAK) { const Raw rx = raw_of(*X); write_values(*T, [&](Index i) { return rx.el[0][i]; }); }
+        ObjP Y = apply_op(o, T, M);
+        c.count("transitions"); c.count("relative_scenarios"); c.count("bystanders_checked");
+        if(!Y) continue;
+        const Raw ry = raw_of(*Y);
+        check_state(*Y, ry, M2, opn + " applied to a " + rel_name[rk], M, true);
+        if(okey(*X) != kx) fail_once(opn + " applied to a " + rel_name[rk] + ": changes the matrix it was made from", "source now " + lay_str(actual(raw_of(*X), ns)));
+      }
+    }
+    // ---- operations with an explicit target, executed into an existing target that has relatives
+    std::vector<Op> ops;
+    ops_for(M, ops, c, false);
+    for(const Op& o : ops)
+    {
+      if(!(o.k == O_CONV || o.k == O_CLONE || (o.k == O_LAYOUT && o.a == 1) || o.k == O_GRAPH || o.k == O_MIRROR || (o.k == O_TRANS && o.a == 0))) continue;
+      Model M2 = M; model_step(M2, o);
+      const int nt = M2.node;
+      const std::string& opn = op_name(o, ns);
+      const bool defined = !(o.k == O_LAYOUT || (o.k == O_CLONE && (o.a == int(CloneMode::Layout) || o.a == int(CloneMode::Allocate))));
+      const bool idx_defined = !(o.k == O_CLONE && o.a == int(CloneMode::Allocate));
+      static const int var_trans[7][2] = {{0, R_WEAK}, {1, R_WEAK}, {0, R_LAYOUT}, {1, R_LAYOUT}, {1, R_CTOR_LAYOUT}, {2, R_WEAK}, {2, R_LAYOUT}};
+      static const int var_other[3][2] = {{1, R_WEAK}, {0, R_LAYOUT}, {2, R_WEAK}};
+      const int nvar = (o.k == O_TRANS) ? 7 : 3;
+      for(int vi = 0; vi < nvar; ++vi)
+      {
+        const int skind = (o.k == O_TRANS) ? var_trans[vi][0] : var_other[vi][0];
+        const int rk = (o.k == O_TRANS) ? var_trans[vi][1] : var_other[vi][1];
+        if(skind == 2 && (nt != ns || !(o.k == O_TRANS || o.k == O_CONV))) continue;
+        Model Mt; ObjP X = replay(hist, Mt);
+        ObjP Sb, T; std::string ks;
+        if(skind == 2) T = make_relative(*X, rk);
+        else
+        {
+          const Model Ms = other_matrix(M2, skind);
+          if(Ms.nnz() == 0) continue;
+          Sb = build_object(Ms);
+          if(!Sb) continue;
+          T = make_relative(*Sb, rk);
+          ks = okey(*Sb);
+        }
+        if(!T) continue;
+        if(rk != R_WEAK) write_values(*T, [](Index i) { return 200.0 + double(i); });
+        ObjP Y = apply_op(o, X, M, &T);
+        c.count("transitions"); c.count("relative_scenarios"); c.count("bystanders_checked");
+        if(!Y) continue;
+        const std::string how = skind == 2 ? std::string(" into target = ") + rel_name[rk] + " of the source"
+          : std::string(" into an existing target (") + rel_name[rk] + " of another matrix with " + (skind == 0 ? "the result's pattern" : "another pattern") + ")";
+        const Raw ry = raw_of(*Y);
+        check_state(*Y, ry, M2, opn + how, M, defined, idx_defined);
+        if(Sb && okey(*Sb) != ks) fail_once(opn + how + ": changes that other matrix", "bystander now " + lay_str(actual(raw_of(*Sb), nt)));
+        if(okey(*X) != kx) fail_once(opn + how + ": source matrix modified", "source now " + lay_str(actual(raw_of(*X), ns)));
+      }
+    }
+  }
+
   ObjP replay(const std::vector<Op>& h, Model& M)
   {
     M = start_model(st);
@@ -945,6 +1162,12 @@ struct Search
             c.outcome(std::string("new state in ") + node_name[Y->node]);
           }
           else c.count("transitions_to_known_state");
+        }
+        relatives_phase(fr.hist, M, kx);
+        {
+          // the phase must leave the state itself untouched
+          Model Mz; ObjP Xz = replay(fr.hist, Mz);
+          if(okey(*Xz) != kx) fail_once("relatives phase: history no longer reproduces its state (leaked aliasing)", "");
         }
       }
       frontier.swap(next);
